@@ -22,6 +22,7 @@ package ipv4
 
 import (
 	"log"
+	"math"
 	"sync/atomic"
 
 	"github.com/brewlin/net-protocol/pkg/buffer"
@@ -179,6 +180,12 @@ func (e *endpoint) HandlePacket(r *stack.Route, vv buffer.VectorisedView) {
 	if more || h.FragmentOffset() != 0 {
 		//需要继续接受更多分片 在进行重组
 		// The packet is a fragment, let's try to reassemble it.
+		// A fragment must carry data and end within the maximum datagram
+		// size, otherwise "last" below wraps around.
+		if vv.Size() == 0 || int(h.FragmentOffset())+vv.Size()-1 > math.MaxUint16 {
+			r.Stats().MalformedRcvdPackets.Increment()
+			return
+		}
 		last := h.FragmentOffset() + uint16(vv.Size()) - 1
 		var ready bool
 		// ip分片重组
